@@ -499,8 +499,10 @@ var hostileIds = []string{`a"b`, `a\b`, `x" or true or id = "`, `and`, `a b`, "a
 func ProbeFkCycle(shape string) int {
 	debug.SetMaxStack(32 << 20)
 	sc := newFkScenario(fkSelfCascade, nil, []string{"w1", "w2"}, "probe")
-	dir := explore.TmpDir("probe")
-	defer os.RemoveAll(dir)
+	dir := os.Getenv("VERIF_PROBE_DIR") // created and removed by the parent (this process may die fatally)
+	if dir == "" {
+		return 3
+	}
 	db, err := boltz.Open(dir+"/p.db", "root")
 	if err != nil {
 		return 3
@@ -543,9 +545,11 @@ func probeCycleCrashes() bool {
 	}
 	crashed := false
 	for _, shape := range []string{"self", "two"} {
+		dir := explore.TmpDir("probe")
 		cmd := exec.Command(exe, "-probe", "fkcycle-"+shape)
-		cmd.Env = append(os.Environ(), "GOTRACEBACK=none")
+		cmd.Env = append(os.Environ(), "GOTRACEBACK=none", "VERIF_PROBE_DIR="+dir)
 		out, err := cmd.CombinedOutput()
+		_ = os.RemoveAll(dir)
 		if err != nil && strings.Contains(string(out), "stack") {
 			crashed = true
 		} else if err != nil && cmd.ProcessState != nil && cmd.ProcessState.ExitCode() == 2 {
